@@ -38,7 +38,8 @@ impl Prop for C06 {
         let t = *r.pick(&[1u64, 2, 10, 100]);
         let red = *r.pick(&[0u64, 1, 5]);
         let payload = *r.pick(&["key", "key", "chord", "layer"]);
-        let pop = *r.pick(&["expire", "next", "next", "next", "held", "stack", "repress", "overflow"]);
+        let pop = *r.pick(&["expire", "next", "next", "next", "held", "stack", "repress", "overflow", "episodes", "episodes"]);
+        let (t, payload) = if pop == "episodes" { (*r.pick(&[20u64, 100]), "key") } else { (t, payload) };
         let t = if (pop == "stack" || pop == "repress") && t < 10 { 10 } else { t };
         let mut case = Case { prop: "C06".into(), seed, ..Default::default() };
         // payload: key -> lsft ; chord -> C-lsft (LCtrl+LShift) ; layer -> layer-while-held l1 (b => 3, c => 4)
@@ -129,6 +130,75 @@ impl Prop for C06 {
                         ops.push(Op::Release(c));
                     }
                     ops.push(Op::Gap(settle));
+                }
+                "episodes" => {
+                    // several one-shot episodes on the same instance, with keys that are already
+                    // held when the one-shot key is tapped and one-shots that expire while a key is
+                    // held: state left behind by one episode must not leak into the next
+                    let n = r.range(2, 4);
+                    let mut must_mod: Vec<usize> = vec![];
+                    let mut must_not: Vec<usize> = vec![];
+                    let after_end = (red + 4) as u32;
+                    for _ in 0..n {
+                        match r.pick_w(&[35, 35, 30]) {
+                            0 => {
+                                // expires while X is held
+                                let pre = r.chance(500);
+                                if pre {
+                                    must_not.push(ops.len());
+                                    ops.push(Op::Press(b));
+                                    ops.push(Op::Gap(r.range(2, 4) as u32));
+                                }
+                                ops.push(Op::Press(a));
+                                ops.push(Op::Gap(2));
+                                ops.push(Op::Release(a));
+                                ops.push(Op::Gap(r.range(2, 4) as u32));
+                                if !pre {
+                                    must_mod.push(ops.len());
+                                    ops.push(Op::Press(b));
+                                }
+                                ops.push(Op::Gap((t + 15) as u32));
+                                ops.push(Op::Release(b));
+                                ops.push(Op::Gap(after_end));
+                            }
+                            1 => {
+                                // X held before the one-shot key: its release does not count
+                                must_not.push(ops.len());
+                                ops.push(Op::Press(b));
+                                ops.push(Op::Gap(r.range(2, 4) as u32));
+                                ops.push(Op::Press(a));
+                                ops.push(Op::Gap(2));
+                                ops.push(Op::Release(a));
+                                ops.push(Op::Gap(2));
+                                ops.push(Op::Release(b));
+                                ops.push(Op::Gap(r.range(2, 3) as u32));
+                                must_mod.push(ops.len());
+                                ops.push(Op::Press(c));
+                                ops.push(Op::Gap(3));
+                                ops.push(Op::Release(c));
+                                ops.push(Op::Gap(after_end));
+                            }
+                            _ => {
+                                ops.push(Op::Press(a));
+                                ops.push(Op::Gap(2));
+                                ops.push(Op::Release(a));
+                                ops.push(Op::Gap(r.range(2, 4) as u32));
+                                must_mod.push(ops.len());
+                                ops.push(Op::Press(c));
+                                ops.push(Op::Gap(3));
+                                ops.push(Op::Release(c));
+                                ops.push(Op::Gap(after_end));
+                            }
+                        }
+                        // a key typed after the episode is plain
+                        must_not.push(ops.len());
+                        ops.push(Op::Press(b));
+                        ops.push(Op::Gap(3));
+                        ops.push(Op::Release(b));
+                        ops.push(Op::Gap((t + 30) as u32));
+                    }
+                    case.set("must_mod", must_mod.iter().map(|i| i.to_string()).collect::<Vec<_>>().join(","));
+                    case.set("must_not", must_not.iter().map(|i| i.to_string()).collect::<Vec<_>>().join(","));
                 }
                 "held" => {
                     ops.push(Op::Press(a));
@@ -228,6 +298,46 @@ impl Prop for C06 {
         }
         if pop == "overflow" {
             o.nontrivial = st.probes.max_oneshot_keys >= 16;
+            if want_sample {
+                o.sample = Some(sample_json(case, &outs, json!({"pop": pop})));
+            }
+            return o;
+        }
+        if pop == "episodes" {
+            let list = |k: &str| -> Vec<usize> { case.param(k).unwrap_or("").split(',').filter_map(|x| x.parse().ok()).collect() };
+            let (must_mod, must_not) = (list("must_mod"), list("must_not"));
+            if must_mod.iter().chain(must_not.iter()).any(|i| *i >= case.ops.len() || !matches!(case.ops[*i], Op::Press(_))) {
+                return RunOut::skip("history-shape-not-of-this-population");
+            }
+            let mut shift = false;
+            let mut judged = 0;
+            for e in &outs {
+                if e.key == "LShift" {
+                    match e.kind {
+                        OutKind::Press => shift = true,
+                        OutKind::Release => shift = false,
+                        _ => {}
+                    }
+                }
+                if e.kind == OutKind::Press && (e.key == "Kb1" || e.key == "Kb2") && e.in_idx >= 0 {
+                    let i = e.in_idx as usize;
+                    if must_mod.contains(&i) {
+                        judged += 1;
+                        if !shift && !o.failed() {
+                            o.set_fail("C06:first-key-after-one-shot-not-modified", format!("{v} T={t}: {} (input #{i}) is the first key pressed after the one-shot key was tapped, but the payload is not down: ops {} :: {}", e.key, ops_short(&case.ops), outs_short(&outs)), vec![]);
+                        }
+                    } else if must_not.contains(&i) {
+                        judged += 1;
+                        if shift && !o.failed() {
+                            o.set_fail("C06:key-outside-one-shot-modified", format!("{v} T={t}: {} (input #{i}) was pressed before the one-shot key / after the one-shot ended, but the payload is down: ops {} :: {}", e.key, ops_short(&case.ops), outs_short(&outs)), vec![]);
+                        }
+                    }
+                }
+            }
+            if judged != must_mod.len() + must_not.len() && !o.failed() {
+                o.set_fail("C06:key-lost", format!("{} of {} plain key presses were output: ops {} :: {}", judged, must_mod.len() + must_not.len(), ops_short(&case.ops), outs_short(&outs)), vec![]);
+            }
+            o.nontrivial = judged > 0;
             if want_sample {
                 o.sample = Some(sample_json(case, &outs, json!({"pop": pop})));
             }
